@@ -120,6 +120,10 @@ func (m *Muxer) AddElementaryStream(es PMTElementaryStream) error {
 			}
 		}
 	} else {
+		// never hand out reserved PIDs (PSI/SI, PMT, null packets) or PIDs already in use
+		for !m.isPIDAvailable(m.nextPID) {
+			m.nextPID++
+		}
 		es.ElementaryPID = m.nextPID
 		m.nextPID++
 	}
@@ -131,6 +135,19 @@ func (m *Muxer) AddElementaryStream(es PMTElementaryStream) error {
 	m.pmtBytes.Reset()
 	m.pmtUpdated = true
 	return nil
+}
+
+// isPIDAvailable checks whether the PID can be automatically assigned to a new elementary stream
+func (m *Muxer) isPIDAvailable(pid uint16) bool {
+	if pid < startPID || pid == pmtStartPID || pid >= PIDNull {
+		return false
+	}
+	for _, oes := range m.pmt.ElementaryStreams {
+		if oes.ElementaryPID == pid {
+			return false
+		}
+	}
+	return true
 }
 
 func (m *Muxer) RemoveElementaryStream(pid uint16) error {
